@@ -282,3 +282,48 @@ func VerifHarness_C14_NotAFunction() {
 	verifReach("done")
 	verifAssert("non-function-variable-is-rejected", err != nil)
 }
+
+// VerifHarness_C14_FunctionVariable: a package variable holding a function (a goverter:variables entry, a
+// function-valued variable named by extend / map / default) follows the rules of declared functions: it is
+// accepted exactly when the output package can refer to it by name.
+func VerifHarness_C14_FunctionVariable() {
+	sig := types.NewSignatureType(nil, nil, nil, types.NewTuple(types.NewParam(token.NoPos, verifUserPkg, "a", types.Typ[types.Int])), types.NewTuple(types.NewParam(token.NoPos, verifUserPkg, "", types.Typ[types.String])), false)
+	exported := nondetBool("exported")
+	name := "convert"
+	if exported {
+		name = "Convert"
+	}
+	var obj types.Object
+	asVar := nondetBool("function-valued-variable")
+	if asVar {
+		obj = types.NewVar(token.NoPos, verifUserPkg, name, sig)
+	} else {
+		obj = types.NewFunc(token.NoPos, verifUserPkg, name, sig)
+	}
+	samePkg := nondetBool("output-in-the-declaring-package")
+	out := "example.org/generated"
+	if samePkg {
+		out = verifUserPkg.Path()
+	}
+	opts := &ParseOpts{ErrorPrefix: "error", OutputPackagePath: out, Params: ParamType(nondetInt("opts.Params", 0, 2)), Generated: nondetBool("opts.Generated")}
+	def, err := Parse(obj, opts, EmptyLocalOpts)
+	verifReach("done")
+	want := (exported || samePkg) && opts.Params != ParamsNone
+	verifAssert("accepted-exactly-when-the-output-package-can-name-it", (err == nil) == want)
+	if err != nil {
+		if !(exported || samePkg) {
+			verifAssert("inaccessible-object-reported-as-such", VerifC14Contains(err.Error(), "must be exported"))
+		}
+		return
+	}
+	verifAssert("source-and-target-from-the-signature", def.Source != nil && def.Target != nil && def.Source.String == "int" && def.Target.String == "string")
+}
+
+func VerifC14Contains(s, sub string) bool {
+	for i := 0; i+len(sub) <= len(s); i++ {
+		if s[i:i+len(sub)] == sub {
+			return true
+		}
+	}
+	return false
+}
